@@ -8,7 +8,7 @@ import z3
 
 from fjvc.core import family, apps_of
 from fjvc.interp import Obj, PyRaise, Untranslatable, obj_class, obj_fields
-from fjvc.lib import tree_map
+from fjvc.lib import tree_map, TypeMarker
 from fjvc.values import SV, UF, lift, to_real, R, I
 
 from .abstract import T, KEY, NONE, TV, cond_term
@@ -181,3 +181,106 @@ def vmap_mixture(ctx):
         cc = NONE if cond is None else c
         want = LSE(z3.Lambda([kb], CLP(kb, x, cc) + lw.at(kb)))
         ctx.oblige(f"C05/VmapMixture._log_prob[{cname}]/post/logsumexp_of_component_log_probs_plus_log_weights", lift(plp.value) == want, plp.cond, props, fn=Q + "._log_prob", replay=rp)
+
+
+@family("mixture/VmapMixture._sample", ["C05", "C04"])
+def vmap_mixture_sample(ctx):
+    """ancestral sampling: a component index drawn from Categorical(weights) with one key, then a draw from THAT component with
+    an INDEPENDENT key (both derived from the caller's key, neither equal to it nor to each other), condition passed through."""
+    it = ctx.interp
+    from .wrappers import install as winstall
+    winstall(it)
+    mix_lib(it)
+    props = ["C05", "C04"]
+    Q = "flowjax.distributions.VmapMixture"
+    cls = it.repo_class(Q)
+    fq = Q + "._sample"
+    LW = z3.Array("log_normalized_weights", I, R)
+    c, key = z3.Const("c", T), z3.Const("key", KEY)
+    SPLITK = z3.Function("split_key", KEY, I, KEY)  # jr.split(key, n)[i]   (T3: distinct children, all different from the parent)
+    CAT = z3.Function("categorical", KEY, ArrS, I)
+    CSAMP = z3.Function("component_sample", I, KEY, T, T)
+    rec = {}
+
+    class KV:
+        def __init__(self, e):
+            self.e = e
+
+    def split(k, n=2):
+        if not isinstance(n, int):
+            raise Untranslatable("jr.split with a symbolic count in VmapMixture._sample")
+        rec.setdefault("splits", []).append((k.e, n))
+        return tuple(KV(SPLITK(k.e, z3.IntVal(i_))) for i_ in range(n))
+
+    def categorical(k, logits, **kw):
+        rec.setdefault("cat", []).append((k.e, logits))
+        if not isinstance(logits, LA):
+            raise Untranslatable("categorical over something that is not the weight vector")
+        return SV(CAT(k.e, logits.arr))
+
+    class Leaf:
+        """array leaf of the batched component distribution (leading axis = component)"""
+        is_array = True
+
+        def __init__(self, name):
+            self.name = name
+
+        def __getitem__(self, idx):
+            return ("leaf_of_component", self.name, lift(idx))
+
+    class Comps:
+        def __init__(self, leaves, picked=None):
+            self.leaves, self.picked = leaves, picked
+            self.shape, self.cond_shape = ("event",), None
+
+        def _sample(self, k, condition=None):
+            rec.setdefault("draw", []).append((self.picked, k.e, condition))
+            if self.picked is None:
+                raise Untranslatable("_sample on the whole component batch")
+            return TV(CSAMP(self.picked, k.e, cond_term(condition)))
+
+    def tmap(f, tree, *rest, is_leaf=None, **kw):
+        if isinstance(tree, Comps):
+            out = [f(l) for l in tree.leaves]
+            idxs = {str(o[2]) for o in out if isinstance(o, tuple) and o and o[0] == "leaf_of_component"}
+            static_ok = all((isinstance(o, tuple) and o[0] == "leaf_of_component") or o is l for o, l in zip(out, tree.leaves) if not isinstance(l, Leaf) or True)
+            if len(idxs) != 1 or not static_ok:
+                rec["bad_select"] = out
+                return Comps(out, None)
+            picked = next(o[2] for o in out if isinstance(o, tuple) and o[0] == "leaf_of_component")
+            all_arrays = all(isinstance(o, tuple) and o[0] == "leaf_of_component" for o, l in zip(out, tree.leaves) if isinstance(l, Leaf))
+            return Comps(out, picked if all_arrays else None)
+        return tree_map(f, tree, *rest, is_leaf=is_leaf)
+
+    lib = it.lib.overrides
+    lib["jax.random.split"] = split
+    lib["jax.random.categorical"] = categorical
+    lib["jax.tree_util.tree_map"] = tmap
+    lib["jax.tree.map"] = tmap
+    lib["jaxtyping.Array"] = TypeMarker("Array", check=lambda v: isinstance(v, Leaf))
+    comps = Comps([Leaf("loc"), "static_field", Leaf("scale")])
+    self = Obj(cls, dist=comps, log_normalized_weights=LA(LW), shape=("event",), cond_shape=None)
+    for cname, cond in (("unconditional", None), ("conditional", TV(c))):
+        rec.clear()
+        p = single(it.explore(lambda cond=cond: method(cls, "_sample")(self, KV(key), cond)), ctx, f"C05/VmapMixture._sample[{cname}]/struct/straight_line", props, fq)
+        if p is None:
+            continue
+        rp = dict(kind="c05", what="mixture_sample", vars={})
+        cats, draws = rec.get("cat", []), rec.get("draw", [])
+        okshape = len(cats) == 1 and len(draws) == 1 and isinstance(p.value, TV) and "bad_select" not in rec
+        ctx.oblige(f"C05/VmapMixture._sample[{cname}]/struct/one_component_draw_and_one_sample", okshape, [], props, kind="applicability", fn=fq)
+        if not okshape:
+            continue
+        kc, logits = cats[0]
+        picked, kd, _cd = draws[0]
+        cc = NONE if cond is None else c
+        # T3 facts about jr.split: children of one parent are pairwise distinct and differ from the parent (ground instances)
+        kids = [SPLITK(par, z3.IntVal(i_)) for par, n_ in rec.get("splits", []) for i_ in range(n_)]
+        t3 = [z3.Distinct(*kids)] if len(kids) > 1 else []
+        t3 += [kid != par for par, n_ in rec.get("splits", []) for kid in [SPLITK(par, z3.IntVal(i_)) for i_ in range(n_)]]
+        ctx.oblige(f"C05/VmapMixture._sample[{cname}]/post/component_drawn_from_the_normalised_weights", z3.And(logits.arr == LW, picked == CAT(kc, LW)), p.cond, props, fn=fq, replay=rp)
+        ctx.oblige(f"C05/VmapMixture._sample[{cname}]/post/draw_comes_from_the_chosen_component_with_the_condition", p.value.e == CSAMP(CAT(kc, LW), kd, cc), p.cond, props, fn=fq, replay=rp)
+        ctx.oblige(f"C05/VmapMixture._sample[{cname}]/post/component_choice_and_draw_use_independent_keys", z3.And(kc != kd, kc != key, kd != key), p.cond + t3, props, fn=fq, replay=rp,
+                   note="a key used twice correlates the chosen component with the drawn value: the joint law is then not the mixture")
+        derived = {str(k_) for k_ in kids}
+        ctx.oblige(f"C05/VmapMixture._sample[{cname}]/struct/keys_derived_from_the_callers_key", str(kc) in derived and str(kd) in derived and all(par.eq(key) or str(par) in derived for par, _n in rec.get("splits", [])), [], props, kind="struct", fn=fq, replay=rp)
